@@ -467,7 +467,7 @@ fn run_setup(ctx: &mut Ctx) {
                 continue;
             }
             // quick: the whole grid as well (it is cheap), with a smaller pairing sample
-            let budget = if ctx.thorough { 4000 } else { 16 };
+            let budget = if ctx.thorough { 1500 } else { 16 };
             setup_case(ctx, nv, d, budget);
         }
         ctx.flush_model(&format!("C15-setup-{}", nv));
@@ -3160,7 +3160,7 @@ fn size_case(ctx: &mut Ctx, i: usize) {
 pub fn run(ctx: &mut Ctx) {
     run_combinations(ctx);
     run_setup(ctx);
-    let n = ctx.n(120, 1500);
+    let n = ctx.n(120, 900);
     for i in 0..n {
         trapdoor_case(ctx, "C15", i);
         if i % 40 == 39 {
